@@ -15,6 +15,11 @@ import TexcraftModel.Model.C01
                                  8 `\let`=font selector a, 9 `\let`=target `(a, b)`
 * `4 pre f`                      font selector `f` (only `pre % 10` counts)
 * `5 0 kind idx` / `5 1 tk tn` / `5 2 0 0`   read a variable / a command / the current font
+* `6 c` the character `c` typed in the source, `7 tk tn` the name used as a command, `8 pre tk tn c`
+  `\let`=the character `c` (surface items, `Model/C01.lean` `Item`: what they do is decided by `elabItem` in
+  the current state); output word `sk` = a name whose meaning is neither a character token nor a font
+  selector (the harness does not write it), annotation of a character / a name used as a command: `B` begins a group, `Z` ends one, `T` typeset,
+  `F` selects a font, `S` not written
 
 Only `kind % 10` counts in `2 …` and `5 0 …` (the tens digit of the kind of a read, like the
 hundreds of `pre`, tells the harness to go through a register alias).
@@ -49,7 +54,7 @@ def defOf (dk a b : Int) : Option Def :=
   match dk with
   | 0 => some (.mac a.toNat) | 1 => some (.gmac a.toNat) | 2 => some (.chr a.toNat)
   | 3 => some (.mchr a.toNat) | 4 => some (.cdef a.toNat) | 5 => some (.tdef a.toNat)
-  | 6 => some (.ltok a.toNat) | 7 => some (.lbuiltin (.prim 0)) | 8 => some (.lbuiltin (.font a.toNat))
+  | 6 => some (.ltok (tokCode a.toNat 11)) | 7 => some (.lbuiltin (.prim 0)) | 8 => some (.lbuiltin (.font a.toNat))
   | 9 => (targetOf a b).map .lcs
   | _ => none
 
@@ -84,6 +89,32 @@ def decOps : Nat → Cur → Option (List Op)
     pure (Op.read (.cmd tgt) :: rest)
   | fuel + 1, 5 :: 2 :: _ :: _ :: t => (decOps fuel t).map (Op.read .font :: ·)
   | _, _ => none
+
+/-- Items: the ops, `6 c` a character, `7 tk tn` a name used as a command, `8 pre tk tn c` `\let`=character. -/
+def decItems : Nat → Cur → Option (List Item)
+  | _, [] => some []
+  | 0, _ => none
+  | fuel + 1, 6 :: c :: t => if c < 0 then none else (decItems fuel t).map (Item.chr c.toNat :: ·)
+  | fuel + 1, 7 :: tk :: tn :: t => do
+    let tgt ← targetOf tk tn
+    let rest ← decItems fuel t
+    pure (Item.exec tgt :: rest)
+  | fuel + 1, 8 :: pre :: tk :: tn :: c :: t => do
+    let tgt ← targetOf tk tn
+    if pre < 0 ∨ c < 0 then none
+    let rest ← decItems fuel t
+    pure (Item.letChr (pre.toNat % 10) tgt c.toNat :: rest)
+  | fuel + 1, c => do
+    -- one op: find its width by decoding a single op
+    let w : Nat := match c with
+      | 0 :: _ => 1 | 1 :: _ => 1 | 2 :: _ => 5 | 3 :: _ => 7 | 4 :: _ => 3 | 5 :: _ => 4 | _ => 0
+    if w = 0 ∨ c.length < w then none
+    let ops ← decOps 2 (c.take w)
+    match ops with
+    | [o] =>
+      let rest ← decItems fuel (c.drop w)
+      pure (Item.op o :: rest)
+    | _ => none
 
 def showOptVal : Option Val → String
   | none => "d"
@@ -139,6 +170,44 @@ def annots : Spec → List Op → Nat → List String
     if r.2.fatal then [annot s op, "D" ++ toString dmax]
     else annot s op :: annots r.1 ops (max dmax r.1.saved.length)
 
+/-- Output word of one item: an `exec` that is not written by the harness is `sk`. -/
+def itemWord (it : Item) (e : Elab) (o : Out) : String :=
+  match it, e with
+  | .exec _, .out .unit => "sk"
+  | _, _ => showOut o
+
+def traceM (cfg : Variant) : VMState → List Item → List String
+  | _, [] => []
+  | m, it :: its =>
+    let e := elabItem (catOf m) (getCmd m) it
+    let r := stepItem cfg m it
+    if r.2.fatal then [itemWord it e r.2] else itemWord it e r.2 :: traceM cfg r.1 its
+
+def traceS (tex : Bool) : Spec → List Item → List String
+  | _, [] => []
+  | s, it :: its =>
+    let e := elabItem (Spec.catOf s.cur) (Spec.getCmd s.cur) it
+    let r := if tex then s.stepItemTeX it else s.stepItem it
+    if r.2.fatal then [itemWord it e r.2] else itemWord it e r.2 :: traceS tex r.1 its
+
+/-- Annotation of one item: of its op, or `E`/`S` for a name used as a command (written / not). -/
+def annotItem (s : Spec) (it : Item) : String :=
+  match it, elabItem (Spec.catOf s.cur) (Spec.getCmd s.cur) it with
+  | .op o, _ => annot s o
+  | .letChr .., .op o => annot s o
+  | .exec _, .out .unit => "S"
+  | .exec _, .op (.selectFont ..) => "F"
+  | _, .op .beginGroup => "B"
+  | _, .op .endGroup => "Z"
+  | _, _ => "T"
+
+def annotsItems : Spec → List Item → Nat → List String
+  | _, [], dmax => ["D" ++ toString dmax]
+  | s, it :: its, dmax =>
+    let r := s.stepItem it
+    if r.2.fatal then [annotItem s it, "D" ++ toString dmax]
+    else annotItem s it :: annotsItems r.1 its (max dmax r.1.saved.length)
+
 def variantOf (i : Nat) : Variant := ⟨i % 2 = 1, (i / 2) % 2 = 1, (i / 4) % 2 = 1⟩
 
 def handle (line : String) : String :=
@@ -147,14 +216,14 @@ def handle (line : String) : String :=
     match ints? ws with
     | none => "bad"
     | some c =>
-      match decOps (c.length + 1) c with
+      match decItems (c.length + 1) c with
       | none => "bad"
-      | some ops =>
-        let s := showOuts (Spec.init.run ops).2
-        let t := " ".intercalate (annots Spec.init ops 0)
-        let vs := (List.range 8).map (fun i => showOuts (run (variantOf i) VMState.init ops).2)
-        let x := showOuts (Spec.init.runTeX ops).2
-        " | ".intercalate (s :: t :: vs ++ [x])
+      | some its =>
+        let sp := " ".intercalate (traceS false Spec.init its)
+        let t := " ".intercalate (annotsItems Spec.init its 0)
+        let vs := (List.range 8).map (fun i => " ".intercalate (traceM (variantOf i) VMState.init its))
+        let x := " ".intercalate (traceS true Spec.init its)
+        " | ".intercalate (sp :: t :: vs ++ [x])
   | _ => "bad"
 
 end DrvC01
